@@ -433,6 +433,11 @@ func runC10(w *World) {
 			if !c.folderUpload(w, "Folder", nodes, cut) {
 				return
 			}
+			if !cut {
+				// every item has been acknowledged: a client that goes on at once (lists, downloads) must find the tree
+				compareTree(w, filepath.Join(w.FileRoot, "Folder"), nodes, "c10-uploaded-tree-differs-at-last-acknowledgement")
+				w.Probe("tree_compared_at_last_acknowledgement")
+			}
 			Settle()
 			compareTree(w, filepath.Join(w.FileRoot, "Folder"), nodes, "c10-uploaded-tree-differs")
 			if mode == 2 && len(w.Violations()) == 0 {
